@@ -34,9 +34,14 @@ Want    == IF CutCell THEN Stop(OC) ELSE Expected(OC)
 Off == l = 0 \/ O.skipped
 
 \* the recorded lines are exactly the cells of the matrix, once each
-Complete  == l # 0 \/ (/\ Cardinality({Trace[i].id : i \in 1..Len(Trace)}) = Len(Trace)
-                       /\ Cardinality({i \in 1..Len(Trace) : Trace[i].id < RandBase}) = Cardinality(TraceCells))
-InMatrix  == l = 0 \/ O.id >= RandBase \/ (OC \in TraceCells /\ O.id = IdOf(OC))
+\* ... once per file system the driver ran on (mem = afero.MemMapFs, os = afero.OsFs with real files)
+FsModes   == {"mem", "os"}
+Complete  == l # 0 \/ (/\ Cardinality({<<Trace[i].id, Trace[i].fs>> : i \in 1..Len(Trace)}) = Len(Trace)
+                       /\ \A f \in FsModes :
+                            Cardinality({i \in 1..Len(Trace) : Trace[i].id < RandBase /\ Trace[i].fs = f})
+                              = Cardinality(TraceCells))
+InMatrix  == l = 0 \/ (/\ O.fs \in FsModes
+                       /\ O.id >= RandBase \/ (OC \in TraceCells /\ O.id = IdOf(OC)))
 \* the registered constructor accepted the config
 Built     == Off \/ O.build_err = ""
 \* exactly min over the non-zero bounds (or exactly the cut) was handed to the consumers
@@ -55,4 +60,9 @@ EndOfAmmo == Off \/ IF CutCell THEN O.eof_after /\ (Bounded(OC) => O.count + O.d
 \* a real engine run over the same provider config ends successfully, having shot exactly the ammo
 EngineOK  == Off \/ ~O.eng \/ (/\ O.eng_ret /\ O.eng_class = "nil" /\ O.eng_wait
                                  /\ O.eng_shots = IF Bounded(OC) THEN Expected(OC) ELSE Cap(OC))
+\* the ammo file is released at the end of every run: the number of descriptors the driver process holds does not
+\* grow with the number of cells it has run (one-sided; FdSlack covers the runtime's own descriptors and the
+\* few goroutines abandoned after blocked cells)
+FdSlack   == 16
+NoFdLeak  == Off \/ O.fds0 < 0 \/ O.fds <= O.fds0 + FdSlack
 =============================================================================
